@@ -40,14 +40,37 @@ package paths
 //@ func reportParamVsParam props C15,C14
 //@ requires conflicts != nil && seen != nil && 0 <= idx && idx < len(newSegments)
 //@ modifies *conflicts, any(elems(*conflicts)), elems(seen)
+// whole view of the reported list: what was reported before stays, and every conflict reported here names the entry being inserted
+//@ ensures grow: len(*conflicts) >= old(len(*conflicts))
+//@ ensures keep: forall(i, 0, old(len(*conflicts)), (*conflicts)[i] == old((*conflicts)[i]))
+//@ ensures names: forall(i, old(len(*conflicts)), len(*conflicts), (*conflicts)[i].A == entry || (*conflicts)[i].B == entry)
+//@ loop 0 invariant len(*conflicts) >= old(len(*conflicts))
+//@ loop 0 invariant forall(i, 0, old(len(*conflicts)), (*conflicts)[i] == old((*conflicts)[i]))
+//@ loop 0 invariant forall(i, old(len(*conflicts)), len(*conflicts), (*conflicts)[i].A == entry || (*conflicts)[i].B == entry)
 
 //@ func reportLiteralVsParam props C15,C14
 //@ requires conflicts != nil && seen != nil && 0 <= idx && idx < len(newSegments)
 //@ modifies *conflicts, any(elems(*conflicts)), elems(seen)
+// whole view of the reported list: what was reported before stays, and every conflict reported here names the entry being inserted
+//@ ensures grow: len(*conflicts) >= old(len(*conflicts))
+//@ ensures keep: forall(i, 0, old(len(*conflicts)), (*conflicts)[i] == old((*conflicts)[i]))
+//@ ensures names: forall(i, old(len(*conflicts)), len(*conflicts), (*conflicts)[i].A == entry || (*conflicts)[i].B == entry)
+//@ loop 0 invariant len(*conflicts) >= old(len(*conflicts))
+//@ loop 0 invariant forall(i, 0, old(len(*conflicts)), (*conflicts)[i] == old((*conflicts)[i]))
+//@ loop 0 invariant forall(i, old(len(*conflicts)), len(*conflicts), (*conflicts)[i].A == entry || (*conflicts)[i].B == entry)
 
 //@ func reportParamVsLiterals props C15,C14
 //@ requires conflicts != nil && seen != nil
 //@ modifies *conflicts, any(elems(*conflicts)), elems(seen)
+//@ ensures grow: len(*conflicts) >= old(len(*conflicts))
+//@ ensures keep: forall(i, 0, old(len(*conflicts)), (*conflicts)[i] == old((*conflicts)[i]))
+//@ ensures names: forall(i, old(len(*conflicts)), len(*conflicts), (*conflicts)[i].A == entry || (*conflicts)[i].B == entry)
+//@ loop 0 invariant len(*conflicts) >= old(len(*conflicts))
+//@ loop 0 invariant forall(i, 0, old(len(*conflicts)), (*conflicts)[i] == old((*conflicts)[i]))
+//@ loop 0 invariant forall(i, old(len(*conflicts)), len(*conflicts), (*conflicts)[i].A == entry || (*conflicts)[i].B == entry)
+//@ loop 1 invariant len(*conflicts) >= old(len(*conflicts))
+//@ loop 1 invariant forall(i, 0, old(len(*conflicts)), (*conflicts)[i] == old((*conflicts)[i]))
+//@ loop 1 invariant forall(i, old(len(*conflicts)), len(*conflicts), (*conflicts)[i].A == entry || (*conflicts)[i].B == entry)
 
 // The reported list is ordered by (first path, second path, reason): the order does not depend on discovery order (C13)
 //@ spec conflictBefore(a Conflict, b Conflict) bool = a.A.Path < b.A.Path || (a.A.Path == b.A.Path && (a.B.Path < b.B.Path || (a.B.Path == b.B.Path && !(b.Reason < a.Reason))))
